@@ -15,17 +15,59 @@ import ast
 from .core import AnalysisError, Repo, Report, call_name, nested_defs, norm, own_nodes
 from .paths import eval_bool
 from .resolve import env_at, resolved, rtext
-from .sem import Scope, bind_args, canon, outcomes
+from .sem import Scope, bind_args, canon, expression_body, inline, kwcalls, outcomes
 
 R = "E12.operator_mode"
 MOD = "block_diagonalization"
 
 
-def _entrywise(e: ast.AST):
-    """M.applyfunc(lambda x: F(x)) -> (matrix text, parameter name, body AST) else None."""
-    if isinstance(e, ast.Call) and isinstance(e.func, ast.Attribute) and e.func.attr == "applyfunc" and len(e.args) == 1 \
-            and isinstance(e.args[0], ast.Lambda) and len(e.args[0].args.args) == 1:
-        return norm(e.func.value), e.args[0].args.args[0].arg, e.args[0].body
+def _as_lambda(fn: ast.FunctionDef):
+    """A one-parameter function as (parameter, body expression): `return E`, or a two-way `if T: return A; return B`."""
+    if len(fn.args.args) != 1 or fn.args.vararg or fn.args.kwarg:
+        return None
+    e = expression_body(fn)
+    if e is not None:
+        return fn.args.args[0].arg, e
+    oc = outcomes(fn.body, None, env={}, expand=False)
+    if len(oc) == 2 and all(o.kind == "return" and o.value is not None and len(o.conds) == 1 for o in oc) \
+            and norm(oc[0].conds[0][0]) == norm(oc[1].conds[0][0]) and oc[0].conds[0][1] != oc[1].conds[0][1]:
+        yes, no = (oc[0], oc[1]) if oc[0].conds[0][1] else (oc[1], oc[0])
+        return fn.args.args[0].arg, ast.IfExp(test=yes.conds[0][0], body=yes.value, orelse=no.value)
+    return None
+
+
+def _entrywise(e: ast.AST, scope: Scope | None = None):
+    """M.applyfunc(lambda x: F(x)) or M.applyfunc(f) with f a known one-parameter function
+    -> (matrix AST, parameter name, body AST) else None."""
+    if isinstance(e, ast.Call) and isinstance(e.func, ast.Attribute) and e.func.attr == "applyfunc" and len(e.args) == 1 and not e.keywords:
+        fn = e.args[0]
+        if isinstance(fn, ast.Lambda) and len(fn.args.args) == 1:
+            return e.func.value, fn.args.args[0].arg, fn.body
+        if isinstance(fn, ast.Name) and scope is not None and scope.get(fn.id) is not None:
+            lam = _as_lambda(scope.get(fn.id))
+            if lam is not None:
+                return e.func.value, lam[0], lam[1]
+    return None
+
+
+ELEMENT = "_ELEMENT_"
+
+
+def _element_body(fn: ast.FunctionDef, what: str):
+    """`name = <series>[index]` as the first statement of an eval -> (series text, the statements after it, env binding name to
+    the symbol _ELEMENT_)."""
+    body = [s for s in fn.body if not (isinstance(s, ast.Expr) and isinstance(s.value, ast.Constant))]
+    if not (body and isinstance(body[0], ast.Assign) and isinstance(body[0].targets[0], ast.Name) and isinstance(body[0].value, ast.Subscript)
+            and norm(body[0].value.slice) == "index"):
+        raise AnalysisError(R, f"{what}: does not start by reading the wrapped series at the requested index")
+    return norm(body[0].value.value), body[0], body[1:], {body[0].targets[0].id: ast.Name(id=ELEMENT, ctx=ast.Load())}
+
+
+def _series_ctor(value: ast.AST, scope: Scope):
+    """BlockSeries(...) call, directly or through a helper that returns one -> {keyword: text} else None."""
+    e = inline(value, scope)
+    if isinstance(e, ast.Call) and call_name(e) == "BlockSeries" and not e.args:
+        return {k.arg: norm(k.value) for k in e.keywords}
     return None
 
 
@@ -41,11 +83,10 @@ def rule_operator_mode(rep: Report, repo: Repo):
     ok_guard = isinstance(guard, ast.If) and norm(canon(guard.test)) == "operators" and hev in guard.body
     rep.check(ok_guard, R, f"{MOD}::block_diagonalize the Hamiltonian is converted exactly when operators were found",
               norm(guard.test) if isinstance(guard, ast.If) else "not under a condition", loc(hev))
-    src = [s for s in hev.body if isinstance(s, ast.Assign) and isinstance(s.value, ast.Subscript) and norm(s.value.slice) == "index"]
-    if len(src) != 1:
-        raise AnalysisError(R, "H_eval: read of the original series at the requested index not found")
-    RES = norm(src[0].targets[0])
-    ORIG = norm(src[0].value.value)
+    scope = Scope(repo.trees[MOD], hev)
+    ORIG, src0, rest, env0 = _element_body(hev, "H_eval")
+    src = [src0]
+    ONE = f"sympy.Matrix([[{ELEMENT}]])"
     table = {}
     for is_zero in (True, False):
         for scalar_input in (True, False):
@@ -54,42 +95,29 @@ def rule_operator_mode(rep: Report, repo: Repo):
                     continue
                 def atom(n):
                     t = norm(canon(n))
-                    if t == f"{RES} is zero":
+                    if t == f"{ELEMENT} is zero":
                         return is_zero
                     if t == "scalar_input":
                         return scalar_input
+                    if t == f"isinstance({ELEMENT}, sympy.MatrixBase)":
+                        return is_matrix
+                    if t == f"isinstance({ONE}, sympy.MatrixBase)":
+                        return True
                     return None
                 got = set()
-                for o in outcomes(hev.body, None, env={}, atom=atom, expand=False, opaque=(RES,)):
-                    # the value of `result` on this path: last rebinding (or the read itself); the type tests are followed with
-                    # the type the value has at that point (a rebinding to sympy.Matrix([[.]]) makes it a matrix)
-                    cur, is_mat, feasible = "term", is_matrix, True
-                    for kind, st, rv in o.seq:
-                        if kind == "assign" and isinstance(st, ast.Assign) and norm(st.targets[0]) == RES and st is not src[0]:
-                            if norm(rv) == f"sympy.Matrix([[{RES}]])":
-                                cur, is_mat = "1x1(" + cur + ")", True
-                            else:
-                                cur = "other:" + norm(rv)[:40]
-                        if kind == "cond":
-                            def tatom(n, is_mat=is_mat):
-                                return is_mat if norm(canon(n)) == f"isinstance({RES}, sympy.MatrixBase)" else atom(n)
-                            v = eval_bool(st, tatom)
-                            if v is None:
-                                raise AnalysisError(R, f"H_eval: condition `{norm(st)[:60]}` not understood")
-                            if v != rv:
-                                feasible = False
-                                break
-                    if not feasible:
-                        continue
+                for o in outcomes(rest, None, env=dict(env0), atom=atom, expand=False):
+                    for t_, _pol in o.conds:
+                        if eval_bool(t_, atom) is None:
+                            raise AnalysisError(R, f"H_eval: condition `{norm(t_)[:60]}` not understood")
                     if o.kind == "raise":
                         got.add("raise " + norm(o.value).split("(")[0])
                     elif o.kind == "return":
-                        ew = _entrywise(o.value)
+                        ew = _entrywise(o.value, scope)
                         if norm(o.value) == "zero":
                             got.add("zero")
-                        elif ew is not None and ew[0] == RES and norm(ew[2]) in (f"NumberOrderedForm.from_expr({ew[1]}, operators)",
-                                                                                 f"NumberOrderedForm.from_expr({ew[1]}, operators=operators)"):
-                            got.add(f"entrywise NOF of {cur}")
+                        elif ew is not None and norm(ew[0]) in (ELEMENT, ONE) and norm(kwcalls(ew[2], scope)) in (
+                                f"NumberOrderedForm.from_expr({ew[1]}, operators)", f"NumberOrderedForm.from_expr({ew[1]}, operators=operators)"):
+                            got.add("entrywise NOF of " + ("term" if norm(ew[0]) == ELEMENT else "1x1(term)"))
                         else:
                             got.add("other:" + norm(o.value)[:60])
                     else:
@@ -112,12 +140,14 @@ def rule_operator_mode(rep: Report, repo: Repo):
               f"(term is zero, scalar input, term is a matrix) -> outcome; disagreeing: {bad}" if bad else f"{len(table)} cases", loc(hev))
     rep.check(ORIG != "H" or True, R, f"{MOD}::block_diagonalize::H_eval reads the un-converted series `{ORIG}`", "", loc(src[0]))
     # the converted series replaces H with the same shape / orders
-    ctor = [n for n in own_nodes(f) if isinstance(n, ast.Assign) and isinstance(n.value, ast.Call) and call_name(n.value) == "BlockSeries"
-            and any(k.arg == "eval" and norm(k.value) == "H_eval" for k in n.value.keywords)]
-    ok = len(ctor) == 1 and norm(ctor[0].targets[0]) == "H"
+    fscope = Scope(repo.trees[MOD], hev)
+    ctor = [(n, kw) for n in own_nodes(f) if isinstance(n, ast.Assign) and isinstance(n.value, ast.Call)
+            for kw in [_series_ctor(n.value, fscope)] if kw is not None and kw.get("eval") == "H_eval"]
+    ok = len(ctor) == 1 and norm(ctor[0][0].targets[0]) == "H"
     if ok:
-        kw = {k.arg: norm(k.value) for k in ctor[0].value.keywords}
+        kw = ctor[0][1]
         ok = kw.get("shape") == f"{ORIG}.shape" and kw.get("n_infinite") == f"{ORIG}.n_infinite"
+    ctor = [c[0] for c in ctor]
     rep.check(ok, R, f"{MOD}::block_diagonalize the converted series replaces H with the same block shape and number of parameters", "", loc(ctor[0] if ctor else hev))
     alias = [n for n in own_nodes(f) if isinstance(n, ast.Assign) and norm(n.targets[0]) == ORIG and norm(n.value) == "H"]
     rep.check(len(alias) == 1 and alias[0] in guard.body, R, f"{MOD}::block_diagonalize `{ORIG}` is the series H had before the conversion", "", loc(hev))
@@ -156,7 +186,9 @@ def rule_operator_mode(rep: Report, repo: Repo):
     rep.check(ok, R, f"{MOD}::block_diagonalize operator problems get the operator Sylvester solver, built from the energies of the same H",
               str(sel), loc(f))
     dg = [n for n in own_nodes(f) if isinstance(n, ast.Assign) and norm(n.targets[0]) == "diagonal"]
-    ok = len(dg) == 1 and norm(dg[0].value) == "_extract_diagonal(H, atol, use_implicit, operators)" and bool(ctor) and ctor[0].lineno < dg[0].lineno
+    mscope = Scope(repo.trees[MOD], None)
+    ok = len(dg) == 1 and norm(kwcalls(dg[0].value, mscope)) == "_extract_diagonal(H, atol=atol, implicit=use_implicit, operators=operators)" \
+        and bool(ctor) and ctor[0].lineno < dg[0].lineno
     rep.check(ok, R, f"{MOD}::block_diagonalize the energies are extracted from the converted H with the operator list", norm(dg[0].value) if dg else "", loc(dg[0] if dg else f))
 
     # -- exit: post-processing ------------------------------------------------------------------------------------------------
@@ -164,39 +196,54 @@ def rule_operator_mode(rep: Report, repo: Repo):
     if len(pe) != 1:
         raise AnalysisError(R, "postprocessing_eval not found")
     pe = pe[0]
-    src = [s for s in pe.body if isinstance(s, ast.Assign) and isinstance(s.value, ast.Subscript) and norm(s.value.slice) == "index"]
-    if len(src) != 1:
-        raise AnalysisError(R, "postprocessing_eval: read of the computed element not found")
-    RES = norm(src[0].targets[0])
+    pscope = Scope(repo.trees[MOD], pe)
+    WRAPPED, src0, rest, env0 = _element_body(pe, "postprocessing_eval")
+    SIMPLE = ("{x}._poly_simplify() if isinstance({x}, NumberOrderedForm) else {x}",
+              "{x} if not isinstance({x}, NumberOrderedForm) else {x}._poly_simplify()")
+
+    def simplified_element(e):
+        """entry-wise simplification of the element -> True; the element itself -> False; anything else -> None"""
+        if norm(e) == ELEMENT:
+            return False
+        ew = _entrywise(e, pscope)
+        if ew is not None and norm(ew[0]) == ELEMENT and norm(ew[2]) in [t.format(x=ew[1]) for t in SIMPLE]:
+            return True
+        return None
+
     table = {}
     for is_matrix in (True, False):
         for scalar_input in (True, False):
             for one_by_one in (True, False):
                 def atom(n):
-                    t = norm(canon(n))
-                    if t == f"isinstance({RES}, sympy.MatrixBase)":
-                        return is_matrix
+                    n = canon(n)
+                    t = norm(n)
                     if t == "scalar_input":
                         return scalar_input
-                    if t in (f"{RES}.shape == (1, 1)", f"(1, 1) == {RES}.shape"):
-                        return one_by_one
+                    if isinstance(n, ast.Call) and call_name(n) == "isinstance" and len(n.args) == 2 and norm(n.args[1]) == "sympy.MatrixBase":
+                        se = simplified_element(n.args[0])
+                        return None if se is None else (True if se else is_matrix)  # applyfunc returns a matrix again
+                    if isinstance(n, ast.Compare) and len(n.ops) == 1 and isinstance(n.ops[0], ast.Eq):
+                        l_, r_ = n.left, n.comparators[0]
+                        if norm(l_) == "(1, 1)":
+                            l_, r_ = r_, l_
+                        if norm(r_) == "(1, 1)" and isinstance(l_, ast.Attribute) and l_.attr == "shape" and simplified_element(l_.value) is not None:
+                            return one_by_one  # entry-wise maps keep the shape
                     return None
                 got = set()
-                for o in outcomes(pe.body, None, env={}, atom=atom, expand=False, opaque=(RES,)):
+                for o in outcomes(rest, None, env=dict(env0), atom=atom, expand=False):
                     if o.kind != "return":
                         raise AnalysisError(R, "postprocessing_eval: path without return")
-                    simplified = False
-                    for kind, st, rv in o.seq:
-                        if kind == "assign" and isinstance(st, ast.Assign) and norm(st.targets[0]) == RES and st is not src[0]:
-                            ew = _entrywise(rv)
-                            body_ok = ew is not None and ew[0] == RES and norm(ew[2]) in (
-                                f"{ew[1]}._poly_simplify() if isinstance({ew[1]}, NumberOrderedForm) else {ew[1]}",
-                                f"{ew[1]} if not isinstance({ew[1]}, NumberOrderedForm) else {ew[1]}._poly_simplify()")
-                            if not body_ok:
-                                raise AnalysisError(R, f"postprocessing_eval: rebinding `{norm(rv)[:70]}` not understood")
-                            simplified = True
-                    v = norm(o.value)
-                    got.add(("simplified " if simplified else "") + {RES: "element", f"{RES}[0, 0]": "entry [0, 0]"}.get(v, "other:" + v[:40]))
+                    for t_, _pol in o.conds:
+                        if eval_bool(t_, atom) is None:
+                            raise AnalysisError(R, f"postprocessing_eval: condition `{norm(t_)[:60]}` not understood")
+                    v, entry = o.value, False
+                    if isinstance(v, ast.Subscript) and norm(v.slice) == "(0, 0)":
+                        v, entry = v.value, True
+                    se = simplified_element(v)
+                    if se is None:
+                        got.add("other:" + norm(o.value)[:60])
+                    else:
+                        got.add(("simplified " if se else "") + ("entry [0, 0]" if entry else "element"))
                 table[(is_matrix, scalar_input, one_by_one)] = sorted(got)
     bad = {}
     for (is_matrix, scalar_input, one_by_one), got in table.items():
@@ -211,11 +258,18 @@ def rule_operator_mode(rep: Report, repo: Repo):
     rep.check(not bad, R, f"{MOD}::block_diagonalize::postprocessing_eval results leave through an entry-wise simplification of NumberOrderedForm entries "
               "only; a 1x1 result of a scalar problem is unwrapped", f"disagreeing (matrix, scalar input, 1x1): {bad}" if bad else f"{len(table)} cases", loc(pe))
     wrap = getattr(pe, "_parent", None)
-    ctor2 = [n for n in ast.walk(wrap) if isinstance(n, ast.Call) and call_name(n) == "BlockSeries"] if isinstance(wrap, ast.FunctionDef) else []
+    ctor2 = []
+    if isinstance(wrap, ast.FunctionDef):
+        for n in own_nodes(wrap):
+            if isinstance(n, ast.Return) and n.value is not None:
+                kw = _series_ctor(n.value, pscope)
+                if kw is None:
+                    raise AnalysisError(R, f"{wrap.name}: returned value `{norm(n.value)[:60]}` is not a BlockSeries construction")
+                ctor2.append(kw)
     ok = len(ctor2) == 1 and isinstance(wrap, ast.FunctionDef) and len(wrap.args.args) == 1
     if ok:
         bs = wrap.args.args[0].arg
-        kw = {k.arg: norm(k.value) for k in ctor2[0].keywords}
+        kw = ctor2[0]
         ok = kw.get("eval") == "postprocessing_eval" and kw.get("shape") == f"{bs}.shape" and kw.get("n_infinite") == f"{bs}.n_infinite" \
-            and norm(src[0].value.value) == bs
+            and WRAPPED == bs
     rep.check(ok, R, f"{MOD}::block_diagonalize the post-processed series has the shape and orders of the series it wraps and reads that series", "", loc(pe))
